@@ -208,6 +208,12 @@ func checkC11(env *engine.Env, ci any) engine.Outcome {
 		after := settingsOf(cfg)
 		out.Transitions += len(h)
 		hist := strings.Join(h[:len(h)-1], " ")
+		// asking for the file name first has no effect on the package: name+package(f) must ship what package(f) ships
+		if k, f, _ := strings.Cut(last, ":"); k == "NP" {
+			if i := strings.Index(res, " package"); i >= 0 && strings.TrimSpace(res[i:]) != strings.TrimSpace(baseline["P:"+f]) && !strings.Contains(baseline["P:"+f], "error") {
+				viol("history:name-alters-package:"+f, "after [%s], asking for the file name and then packaging %s on the same settings yields\n  %s\nwhile packaging alone on a freshly parsed configuration yields\n  %s", hist, f, res[i:], baseline["P:"+f])
+			}
+		}
 		if res != baseline[last] {
 			viol("history:result:"+opClass(last)+":after:"+histClass(h[:len(h)-1]), "after the operations [%s] on one parsed configuration, %s yields\n  %s\nwhile on a freshly parsed configuration it yields\n  %s", hist, last, res, baseline[last])
 		}
